@@ -45,14 +45,15 @@
 (***************************************************************************)
 EXTENDS CbRule, GoSlice
 
-CONSTANTS Shape,       \* "par2" | "par3" | "seq" | "nest" | "nestdup"
+CONSTANTS Shape,       \* "par2" | "par3" | "seq" | "nest" | "nestdup" | "sbr" | "nsbr"
           MaxGlobal,   \* 0..MaxGlobal global handlers
           MaxUndes,    \* total number of undesignated handlers
           MaxOpts,     \* ... split over at most MaxOpts WithCallbacks options of 1 or 2 handlers
           MaxDOpts,    \* number of designated WithCallbacks(h).DesignateNode...(paths) options
           Multi,       \* admit designated options with two paths
           AllowFail,   \* admit one failing leaf
-          CopyFix, Gen
+          CopyFix, Gen,
+          LateFlag     \* seeded variant of runner.run: `haveOnStart = true` only after the fresh-start block (see EndR)
 
 \* ------------------------------------------------------------------ unit tables
 U(id, path, graph, parent, src, srcin, pred) ==
@@ -69,6 +70,10 @@ UnitSeq ==
     \* a top-level node whose KEY equals the key of a node inside the sub-graph
     [] Shape = "nestdup" -> <<Top, Leaf("a", "s1", ""), U("sub", <<"sub">>, TRUE, "top", "top", TRUE, ""),
                               U("s1", <<"sub", "s1">>, FALSE, "sub", "top", TRUE, "")>>
+    \* runs that can end INSIDE the initial START step of runner.run: a branch on START with the targets {the leaf, END}
+    \* ("sbr": in the top graph; "nsbr": in a nested graph that is the only node of the top graph); see `bsel` below
+    [] Shape = "sbr"  -> <<Top, Leaf("a", "a", "")>>
+    [] Shape = "nsbr" -> <<Top, U("sub", <<"sub">>, TRUE, "top", "top", TRUE, ""), U("s1", <<"sub", "s1">>, FALSE, "sub", "top", TRUE, "")>>
 UnitSet == Range(UnitSeq)
 Ids == {u.u : u \in UnitSet}
 UR(id) == CHOOSE u \in UnitSet : u.u = id
@@ -86,10 +91,19 @@ Sum(s) == IF s = <<>> THEN 0 ELSE Head(s) + Sum(Tail(s))
 Splits == {s \in UNION {[1..k -> 1..2] : k \in 0..MaxOpts} : Sum(s) <= MaxUndes}
 DPaths == {u.path : u \in {x \in UnitSet : x.parent # ""}}
 POrd(p) == CHOOSE i \in 1..Len(UnitSeq) : UnitSeq[i].path = p
-DTargets == {<<p>> : p \in DPaths} \cup (IF Multi THEN {pq \in DPaths \X DPaths : POrd(pq[1]) < POrd(pq[2])} ELSE {})
+\* one option may designate two paths, in EITHER order (extractOption walks opt.paths in order: a top-level path in front of a nested
+\* one and the reverse are different executions of that loop)
+\* Outside the universe: one option naming a graph node AND a node inside it (the handler is then inherited from the graph node
+\* and appended again for the inner node, so it fires twice there; whether that is wanted is not decided by the statement).
+DTargets == {<<p>> : p \in DPaths} \cup (IF Multi THEN {pq \in DPaths \X DPaths : ~IsPrefix(pq[1], pq[2]) /\ ~IsPrefix(pq[2], pq[1])} ELSE {})
 DSeqs == UNION {[1..k -> DTargets] : k \in 0..MaxDOpts}
-FailSet == {"none"} \cup (IF AllowFail THEN (IF Shape \in {"nest", "nestdup"} THEN {"a", "s1"} ELSE {"a"}) ELSE {})
-Configs == [ng : 0..MaxGlobal, split : Splits, dopts : DSeqs, fail : FailSet]
+FailSet == {"none"} \cup (IF AllowFail THEN (IF Shape \in {"nest", "nestdup"} THEN {"a", "s1"} ELSE IF Shape = "nsbr" THEN {"s1"} ELSE {"a"}) ELSE {})
+\* what the branch on START does:  node = selects the leaf (ordinary run) | end = selects END directly (the result is there after
+\* the START step) | fail = the condition returns an error | int = the selected leaf is an interrupt-before node (checkpoint store
+\* present): runner.run returns from inside the fresh-start block in the last three cases
+BranchGraph == IF Shape = "sbr" THEN "top" ELSE IF Shape = "nsbr" THEN "sub" ELSE "none"
+BSels == IF Shape = "sbr" THEN {"node", "end", "fail", "int"} ELSE IF Shape = "nsbr" THEN {"node", "end", "fail"} ELSE {"node"}
+Configs == {c \in [ng : 0..MaxGlobal, split : Splits, dopts : DSeqs, fail : FailSet, bsel : BSels] : c.fail # "none" => c.bsel = "node"}
 
 GId(i) == "G" \o ToString(i)
 UId(i) == "g" \o ToString(i)
@@ -108,8 +122,8 @@ CaseLine(c) ==
    handlers |-> [i \in 1..c.ng |-> [id |-> GId(i), kind |-> "global", paths |-> <<>>]]
                 \o [i \in 1..Sum(c.split) |-> [id |-> UId(i), kind |-> "undes", paths |-> <<>>]]
                 \o [i \in 1..Len(c.dopts) |-> [id |-> DId(i), kind |-> "des", paths |-> c.dopts[i]]],
-   split |-> c.split, ng |-> c.ng, fail |-> c.fail,
-   units |-> UnitSeq, ends |-> Ends]
+   split |-> c.split, ng |-> c.ng, fail |-> c.fail, bsel |-> c.bsel,
+   units |-> UnitSeq, ends |-> IF c.bsel = "node" THEN Ends ELSE <<>>]
 
 \* ------------------------------------------------------------------ state
 VARIABLES cfg, heap, na, mgr, lst, pc, S, sched
@@ -142,7 +156,10 @@ AppendHandlers(parent, chunks) ==
      ELSE LET r == IF CopyFix THEN CopyAppend(c1.h, parent.hs, add, c1.na) ELSE GoAppend(c1.h, parent.hs, add, c1.na, 16)
           IN [h |-> r.h, na |-> r.na, m |-> InitCallbacks(r.s)]
 
-Failing(id) == IF UR(id).graph THEN (id = "top" /\ cfg.fail # "none") \/ cfg.fail \in Children(id) ELSE cfg.fail = id
+Early(g) == g = BranchGraph /\ cfg.bsel # "node"                 \* the run of graph g returns from inside its START step
+EarlyErr == BranchGraph # "none" /\ cfg.bsel \in {"fail", "int"}
+Failing(id) == IF UR(id).graph THEN (id = "top" /\ (cfg.fail # "none" \/ EarlyErr)) \/ cfg.fail \in Children(id) \/ (Early(id) /\ EarlyErr)
+               ELSE cfg.fail = id
 EndTiming(id) == IF Failing(id) THEN "error" ELSE "end"
 Ev(h, t, id) == [ev |-> "cb", h |-> h, t |-> t, name |-> UR(id).name, comp |-> UR(id).comp, typ |-> UR(id).typ,
                  pl |-> IF t = "start" THEN InOf(id) ELSE IF t = "error" THEN "err" ELSE OutOf(id), strm |-> FALSE]
@@ -150,9 +167,9 @@ Rev(s) == [i \in 1..Len(s) |-> s[Len(s) + 1 - i]]
 
 \* ------------------------------------------------------------------ steps
 Blocked(id) == UR(id).pred # "" /\ cfg.fail = UR(id).pred
-CanInit(id) == /\ id # "top" /\ pc[id] = "wait" /\ pc[UR(id).parent] = "run"
+CanInit(id) == /\ id # "top" /\ pc[id] = "wait" /\ pc[UR(id).parent] = "run" /\ ~Early(UR(id).parent)
                /\ (UR(id).pred # "" => pc[UR(id).pred] = "done" /\ ~Blocked(id))
-ChildrenDone(g) == \A k \in Children(g) : pc[k] = "done" \/ Blocked(k)
+ChildrenDone(g) == Early(g) \/ \A k \in Children(g) : pc[k] = "done" \/ Blocked(k)
 CanEndW(id) == pc[id] = "run" /\ (UR(id).graph => ChildrenDone(id))
 Ungated == \E id \in Ids : \/ CanInit(id)
                             \/ pc[id] = "startW"
@@ -204,13 +221,16 @@ EndW(id) ==
   /\ UNCHANGED <<cfg, mgr>>
 EndR(id) ==
   /\ pc[id] = "endR" /\ (id # "top" => MayGate)
-  /\ S' = ApplyAll(S, Dispatch(id, EndTiming(id)))
+  \* runner.run's deferred block:  if !haveOnStart { onGraphStart }; then onGraphError / onGraphEnd.  As coded the flag is set
+  \* right after the first onGraphStart, so the compensation never fires for a run that started.  LateFlag: the flag is set only
+  \* behind the fresh-start block, whose three early returns (result at once, interrupt-before hit, failing branch) skip it.
+  /\ S' = ApplyAll(S, (IF LateFlag /\ Early(id) THEN Dispatch(id, "start") ELSE <<>>) \o Dispatch(id, EndTiming(id)))
   /\ pc' = [pc EXCEPT ![id] = "done"]
   /\ Rec(id, "endR")
   /\ UNCHANGED <<cfg, heap, na, mgr, lst>>
 Finish ==
   /\ pc["top"] = "done"
-  /\ S' = ApplyAll(S, << [ev |-> "ret", err |-> Failing("top"), out |-> OutOf("top"), outs |-> [i \in {Ends[k] : k \in 1..Len(Ends)} |-> OutOf(i)]],
+  /\ S' = ApplyAll(S, << [ev |-> "ret", err |-> Failing("top"), out |-> OutOf("top"), outs |-> IF cfg.bsel = "node" THEN [i \in {Ends[k] : k \in 1..Len(Ends)} |-> OutOf(i)] ELSE <<>>],
                          [ev |-> "done"] >>)
   /\ pc' = [pc EXCEPT !["top"] = "fin"]
   /\ UNCHANGED <<cfg, heap, na, mgr, lst, sched>>
